@@ -131,19 +131,17 @@ def check_counter(ctx: Ctx) -> None:
     p = ctx.index.method(EC, "EvaluationCounter", "maximum_is_reached")
     con3 = cname(EC, "EvaluationCounter", "maximum_is_reached")
     rets = [s for s in stmts_of(p) if isinstance(s, ast.Return)]
-    main = [r for r in rets if isinstance(r.value, ast.Compare)]
-    ok = len(main) == 1
-    if ok:
-        l, op, r = compare_parts(main[0].value)
-        ok = (dotted(l), op, dotted(r)) in (("self.current", ast.GtE, "self.maximum"), ("self.maximum", ast.LtE, "self.current"))
-    ctx.ob("3.2-predicate", con3, ok, "the budget is reached when current >= maximum (with > one extra new point is evaluated)", node=(main or rets or [p])[0])
-    esc = [r for r in rets if isinstance(r.value, ast.Constant)]
-    ok = all(r.value.value is False for r in esc)
-    cfgp = cfg_of(p)
-    for r in esc:
-        conds = branch_conditions(cfgp, cfgp.node_of(r))
-        ok = ok and len(conds) == 1 and conds[0][1] and norm_stmt(cfgp.ast[conds[0][0]].test) in ("self.maximum == 0", "0 == self.maximum", "not self.maximum")
-    ctx.ob("3.2-predicate", con3, ok, "the only escape of the budget predicate is `maximum == 0` (no budget set)", node=(esc or [p])[0], stmt="maximum == 0 => False")
+    # the predicate reads its two operands only through comparisons: it is decided over every ordering of
+    # (0, current, maximum), whatever its spelling (guard clause, one boolean expression, chained comparison)
+    from gv.ordering import Unsupported
+    from gv.ordering import same_predicate
+
+    try:
+        ok, cex = same_predicate(p, {"self.current": "current", "self.maximum": "maximum"}, lambda current, maximum: maximum != 0 and current >= maximum, where=lambda current, maximum: current >= 0 and maximum >= 0)
+        why = f" (counter-example: {cex})" if cex else ""
+    except Unsupported as e:
+        ok, why = False, f" (the predicate is no longer a pure comparison of current and maximum: {e})"
+    ctx.ob("3.2-predicate", con3, ok, "the budget is reached exactly when a budget is set (maximum != 0) and current >= maximum; with > one extra new point is evaluated" + why, node=(rets or [p])[0], stmt="reached iff maximum != 0 and current >= maximum")
 
 
 def check_execute(ctx: Ctx) -> None:
@@ -297,8 +295,11 @@ def check_stop_classes(ctx: Ctx) -> None:
         ctx.ob("3.5-tester", cname(c.module.relpath, c.qualname), ok, f"the tolerance tester {c.name} raises {d}, which is not a TerminationCriterion", node=a)
     chk = ctx.index.method(SC, "BaseToleranceTester", "check")
     raises = [s for s in stmts_of(chk) if isinstance(s, ast.Raise)]
-    ok = len(raises) == 1 and dotted(raises[0].exc) == "self.termination_criterion"
-    ctx.ob("3.5-tester", cname(SC, "BaseToleranceTester", "check"), ok, "the tester must raise its termination_criterion", node=(raises or [chk])[0])
+    exc = raises[0].exc if len(raises) == 1 else None
+    if isinstance(exc, ast.Call):  # the class or an instance of it: the same exception type is raised
+        exc = exc.func
+    ok = exc is not None and dotted(exc) == "self.termination_criterion"
+    ctx.ob("3.5-tester", cname(SC, "BaseToleranceTester", "check"), ok, "the tester must raise its termination_criterion", node=(raises or [chk])[0], stmt="raise self.termination_criterion")
     # raises in the callback / problem function resolve to stop classes
     for rel, cls, meth in ((DL, "BaseDriverLibrary", "_new_iteration_callback"), (PF, "ProblemFunction", "check_function_output_includes_nan")):
         f = ctx.index.method(rel, cls, meth)
